@@ -345,6 +345,8 @@ def _check_helpers(hdr, pay, arg, V, fr2=None, label='file'):
     """(iv) waterfall_utils helpers on a path / Waterfall: exact lengths, values = header grid = loaded axes."""
     import setigen as stg
     m, n = pay.shape
+    if m < 1 or n < 1:
+        return
     grid = S.freqs_mhz_exact(hdr, n)
     scale = max(abs(float(grid[0])), abs(float(grid[-1])), abs(float(hdr['foff'])))
     try:
@@ -360,7 +362,7 @@ def _check_helpers(hdr, pay, arg, V, fr2=None, label='file'):
           % (len(fs), n, hdr['fch1'], hdr['foff']))
     else:
         for i in range(n):
-            if not _close(fs[i], grid[i], scale, K_S):
+            if not _close(fs[i], grid[i], scale, K_F):
                 V('waterfall_utils.get_fs', 'value', 'get_fs[%d]=%r, header grid %r' % (i, fs[i], float(grid[i])))
                 break
         if fr2 is not None and len(fr2.fs) == n:
@@ -370,9 +372,9 @@ def _check_helpers(hdr, pay, arg, V, fr2=None, label='file'):
                     V('waterfall_utils.get_fs', 'vs_frame', 'sorted get_fs[%d]=%r MHz, loaded frame fs[%d]=%r Hz'
                       % (j, srt[j], j, fr2.fs[j]))
                     break
-    if not _close(lo, min(grid), scale, K_S):
+    if not _close(lo, min(grid), scale, K_F):
         V('waterfall_utils.min_freq', 'value', 'min_freq=%r, lowest channel %r' % (lo, float(min(grid))))
-    if not _close(hi, max(grid), scale, K_S):
+    if not _close(hi, max(grid), scale, K_F):
         V('waterfall_utils.max_freq', 'value', 'max_freq=%r, highest channel %r' % (hi, float(max(grid))))
     if ts.shape != (m,):
         V('waterfall_utils.get_ts', 'length', 'get_ts returns %d values for %d integrations (tsamp=%r)'
@@ -472,6 +474,11 @@ def _visit(c, hist, V, cnt, fmt_orders):
         fr = _replay(c, hist, V)
         if fr is None:
             return None
+        if fr.tchans < 1 or fr.fchans < 1 or np.ndim(fr.data) != 2 or len(fr.fs) < 1:
+            V('history_op', 'degenerate_frame', 'operation %s produced a frame of shape %s (data %s, %d frequencies)'
+              % (hist[-1] if hist else 'root', tuple(fr.shape), np.shape(fr.data), len(fr.fs)),
+              op=hist[-1] if hist else 'root')
+            return None
         if keys is None:
             keys = (_state_key(fr), _class_key(fr), (fr.tchans, fr.fchans))
         for fmt in order:
@@ -506,7 +513,10 @@ def case_history(c):
     def V(site, failure, detail, op=None):
         if site == 'history_op':
             site = {'from_wf_obj': 'Frame.__init__(waterfall=Waterfall)', 'copy': 'Frame.copy',
-                    'pickle': 'Frame.__getstate__'}.get(op, 'Frame.' + str(op))
+                    'pickle': 'Frame.__getstate__', 'slice_head': 'Frame.get_slice', 'slice_tail': 'Frame.get_slice',
+                    'slice_mid': 'Frame.get_slice', 'dedrift_pos': 'dedrift', 'dedrift_neg': 'dedrift',
+                    'save_fil>load': 'Frame.save_fil+Frame(path)', 'save_h5>load': 'Frame.save_h5+Frame(path)',
+                    'get_waterfall': 'Frame.get_waterfall'}.get(op, 'Frame.' + str(op))
         viol.append({'site': site, 'failure': failure,
                      'detail': 'history %s: %s' % (cur['hist'], detail),
                      'params': dict(c, history=list(cur['hist'] or []))})
